@@ -379,3 +379,11 @@ package keeper
 //@   invariant true
 //@ loop #2
 //@   invariant true
+
+// C05 (an opted-in operator's reported value is the value stored for it): the stored record is reported for every
+// operator that is opted in - also a jailed one (it stays in the AVS total until it opts out) - and zero only for one that is not.
+//@ func (*Keeper).GetOperatorOptedUSDValue
+//@   flag noframe
+//@   flag pure=IsOptedIn,Wrap,Sprintf
+//@   ensures[C05.goouv.optedin] defined(res_IsOptedIn_0) && (res_IsOptedIn_0 && operatorAddr != "" && err == nil ==> defined(res_Get_0) &&
+//@        r0 == unm["x/operator/types.OperatorOptedUSDValue"](res_Get_0))
